@@ -7,7 +7,7 @@ from . import common
 
 ID = 'C01'
 LEVEL = 'exploration'
-BUDGET = {'quick': (6000, 70.0), 'thorough': (250000, 1500.0)}
+BUDGET = {'quick': (12000, 80.0), 'thorough': (300000, 1500.0)}
 RULE = ('seeded swarm generation of 2-4 real J1939-21 stacks, 1-8 messages on distinct (SA,DA) pairs submitted within 300 ms; '
         'a run is non-trivial when at least one multi-packet transfer put frames on the bus; distinct = distinct scenario JSON')
 REQUIRED_PROBES = ['cmdt_msgs', 'bam_msgs', 'zero_latency_runs', 'len_mod7_zero']
